@@ -21,8 +21,8 @@ Expression-level computations (the lax crop that finds the collisions, the searc
 write happens before which raise.  Line numbers refer to /repo at the pinned sources
 (praatio/data_classes/interval_tier.py, point_tier.py, textgrid_tier.py, textgrid.py).
 
-Not modelled: `utils.validateOption` (L483-490 of interval_tier.py etc.): the option values are typed enumerations here;
-an invalid value raises `WrongOption` in the first two statements of the method, before `self` is read.
+Option values are typed enumerations; `utils.validateOption` (the first statements of insertEntry and addTier) is modelled by
+the `…Py` entry points below, which take `Option`al option values: `none` = a value outside `validOptions` → `WrongOption`.
 -/
 
 namespace Imp
@@ -42,6 +42,13 @@ def report {σ : Type} (rep : Report) (e : Err) : M σ Unit :=
   match rep with
   | .error => throw e
   | _ => pure ()
+
+/-- `utils.validateOption(variableName, value, optionClass)`, utils.py L84-86: `none` stands for a value that is not in
+`optionClass.validOptions` -/
+def validateOption {σ β : Type} (v : Option β) : M σ β :=
+  match v with
+  | some x => pure x
+  | none => throw .WrongOption
 
 section
 variable {α : Type} [LT α] [LE α] [DecidableLT α] [DecidableLE α] [BEq α] [Add α] [Sub α] [Tm α]
@@ -163,6 +170,19 @@ def pinsertEntry (x0 : Pt α) (mode : InsMode) (rep : Report) : M (PTier α) Uni
   -- L380-392
   pinsertFinish matchList rep
 
+/-- `IntervalTier.insertEntry` from its first statement: interval_tier.py L483-491 (the two `validateOption` calls, before
+`self` is read), then L493-550 -/
+def iinsertEntryPy (x0 : Iv α) (mode? : Option InsMode) (rep? : Option Report) : M (ITier α) Unit := do
+  let mode ← validateOption mode?     -- L483-485
+  let rep ← validateOption rep?       -- L486-490
+  iinsertEntry x0 mode rep
+
+/-- `PointTier.insertEntry` from its first statement: point_tier.py L332-340, then L342-392 -/
+def pinsertEntryPy (x0 : Pt α) (mode? : Option InsMode) (rep? : Option Report) : M (PTier α) Unit := do
+  let mode ← validateOption mode?     -- L332-334
+  let rep ← validateOption rep?       -- L335-339
+  pinsertEntry x0 mode rep
+
 /-! ## Textgrid: `_tierDict` as an OrderedDict -/
 
 /-- `d[t.name] = t` on an OrderedDict: a present key keeps its place, a new key goes to the end -/
@@ -221,6 +241,11 @@ def addTier (t : AnyTier α) (idx : Option Int) (rep : Report) : M (Tg α) Unit 
   addTierStore t idx      -- L136-146
   addTierSpan t           -- L148-152
 
+/-- `Textgrid.addTier` from its first statement: textgrid.py L112-115 (`validateOption("reportingMode", …)`), then L117-152 -/
+def addTierPy (t : AnyTier α) (idx : Option Int) (rep? : Option Report) : M (Tg α) Unit := do
+  let rep ← validateOption rep?       -- L112-114
+  addTier t idx rep
+
 /-- `Textgrid.renameTier(oldName, newName)`, textgrid.py L517-523 -/
 def renameTier (old new : String) : M (Tg α) Unit := do
   let self ← get
@@ -239,8 +264,25 @@ def renameTier (old new : String) : M (Tg α) Unit := do
   let nt ← liftE (oldTier.renew (name := some new))
   addTier nt (some tierIndex) .warning
 
-/-- `Textgrid.replaceTier(name, newTier, reportingMode)`, textgrid.py L528-546 -/
-def replaceTier (n : String) (t : AnyTier α) (rep : Report) : M (Tg α) Unit := do
+/-- the `except errors.PraatioException:` block of `Textgrid.replaceTier`, textgrid.py L538-546 -/
+def replaceRestore (oldTier : AnyTier α) (tierIndex : Int) (e : Err) : M (Tg α) Unit := do
+  -- L540  self._tierDict[name] = oldTier                    (the key `name` is oldTier's own name)
+  modify fun g => { g with tiers := dictSet g.tiers oldTier }
+  -- L541-542  tierNames = list(self.tierNames); tierNames.insert(tierIndex, tierNames.pop())
+  let g1 ← get
+  let names := g1.names
+  let order ← match names.getLast? with
+    | some last => pure (pyListInsert names.dropLast tierIndex last)
+    | none => throw .IndexError
+  -- L543-545  self._tierDict = OrderedDict((tmpName, self._tierDict[tmpName]) for tmpName in tierNames)
+  let newTierDict ← liftE (order.mapM g1.getTier)
+  modify fun g => { g with tiers := newTierDict }
+  -- L546  raise
+  throw e
+
+/-- `Textgrid.replaceTier`, textgrid.py L534-546, with the call `self.addTier(newTier, tierIndex, reportingMode)` of L537 as
+a parameter (it is `addTier` for a valid reportingMode, `addTierPy` in general) -/
+def replaceTierCore (n : String) (addCall : Int → M (Tg α) Unit) : M (Tg α) Unit := do
   let self ← get
   -- L534  tierIndex = self.tierNames.index(name)                (ValueError)
   let tierIndex ← match self.indexOf n with
@@ -249,22 +291,17 @@ def replaceTier (n : String) (t : AnyTier α) (rep : Report) : M (Tg α) Unit :=
   -- L535  oldTier = self.removeTier(name)
   let oldTier ← removeTier n
   -- L536-546  try: self.addTier(newTier, tierIndex, reportingMode)  except errors.PraatioException: <restore>; raise
-  tryCatch (addTier t (some tierIndex) rep) fun e =>
-    if e.isPraatio then do
-      -- L540  self._tierDict[name] = oldTier                    (the key `name` is oldTier's own name)
-      modify fun g => { g with tiers := dictSet g.tiers oldTier }
-      -- L541-542  tierNames = list(self.tierNames); tierNames.insert(tierIndex, tierNames.pop())
-      let g1 ← get
-      let names := g1.names
-      let order ← match names.getLast? with
-        | some last => pure (pyListInsert names.dropLast tierIndex last)
-        | none => throw .IndexError
-      -- L543-545  self._tierDict = OrderedDict((tmpName, self._tierDict[tmpName]) for tmpName in tierNames)
-      let newTierDict ← liftE (order.mapM g1.getTier)
-      modify fun g => { g with tiers := newTierDict }
-      -- L546  raise
-      throw e
-    else throw e
+  tryCatch (addCall tierIndex) fun e =>
+    if e.isPraatio then replaceRestore oldTier tierIndex e else throw e
+
+/-- `Textgrid.replaceTier(name, newTier, reportingMode)`, textgrid.py L528-546, valid reportingMode -/
+def replaceTier (n : String) (t : AnyTier α) (rep : Report) : M (Tg α) Unit :=
+  replaceTierCore n fun i => addTier t (some i) rep
+
+/-- `Textgrid.replaceTier` with any reportingMode value: the option is validated by `addTier` (L112), i.e. INSIDE the `try`,
+after the old tier has been removed; `WrongOption` is a `PraatioException`, so the `except` block restores the textgrid -/
+def replaceTierPy (n : String) (t : AnyTier α) (rep? : Option Report) : M (Tg α) Unit :=
+  replaceTierCore n fun i => addTierPy t (some i) rep?
 
 /-! ## deliberately WRONG variants (seeded changes C13-mutF and C13-mutB), used only to show that this layer tells them
 apart from the code as it is (`Props/C13Atomic.lean`) -/
